@@ -4,7 +4,7 @@
 //
 // stdin: one case per line; each case runs in a forked child (one Engine per process; xbt_assert aborts -> "assert").
 //   <mode> <n> <K:d>*n | <op>*
-//     mode = api | json:<file> | dax:<file>
+//     mode = api | json:<file> | dax:<file>   (loader modes: `| <loader ops> || <op>*`, K:d:<i> = comm leaves from host of i)
 //     K    = E (Exec on private host) | C (host-to-host Comm on private hosts+link) | I (Io on private disk)
 //     d    = duration in units of 2^-10 s (amount = d * 2^10 on a 2^20 units/s resource); for loader modes the K:d list
 //            describes dag[i] as the check expects it (the amount in the file is what counts)
@@ -18,7 +18,8 @@
 //     o<i>=<c>[x|k]   op i is about to run, state char c of its target (I,G=STARTING,S,X=FAILED,C,F); x = exception,
 //                     k = skipped by the guard
 //     S<b>@<t>  V<b>@<t>  F<b>@<t>:<c>     on_start, on_veto, on_completion (state char) of activity b at clock t
-//     L                                   end of the loader phase, followed by the dump D<i>:<c>:<kind>:<amount %a>:<succs,>:<deps,>
+//     L                                   end of the loader phase, then N<size> and the dump
+//                                         D<i>:<c>:<kind>:<amount %a>:<succs,>:<deps,>:<name>:<flags h|s|d|->
 //     E@<t>                               Engine::run returned at clock t
 #include <simgrid/s4u.hpp>
 #include <cstdarg>
@@ -46,6 +47,7 @@ static std::map<const sg4::Activity*, int> idx;
 static std::vector<sg4::Host*> hostA, hostB;
 static std::vector<sg4::Disk*> disks;
 static std::string out;
+static std::vector<int> srcof; // loader modes: comm i leaves from the host of activity srcof[i]
 
 static char st(const sg4::Activity* a)
 {
@@ -61,7 +63,7 @@ static char st(const sg4::Activity* a)
 }
 static void emit(const char* fmt, ...)
 {
-  char buf[256];
+  char buf[2048];
   va_list ap;
   va_start(ap, fmt);
   vsnprintf(buf, sizeof buf, fmt, ap);
@@ -163,12 +165,18 @@ static int run_case(const std::string& line)
     in >> t;
     kinds[i] = t[0];
     dur[i]   = std::stol(t.substr(2));
+    auto parts = split(t, ':');
+    srcof.push_back(parts.size() > 2 ? std::stoi(parts[2]) : -1);
   }
   std::string bar;
   in >> bar;
   std::vector<Op> ops;
   std::string tok;
   while (in >> tok) {
+    if (tok == "||") { // loader modes: what precedes is the check's transcription of the loader, for the driver only
+      ops.clear();
+      continue;
+    }
     auto p = split(tok, ':');
     Op o;
     o.k = p[0];
@@ -193,8 +201,11 @@ static int run_case(const std::string& line)
   hostB.assign(n, nullptr);
   disks.assign(n, nullptr);
   auto* ah = zone->add_host("actorhost", R);
-  for (int i = 0; i < n; i++) {
+  for (int i = 0; i < n; i++)
     hostA[i] = zone->add_host("a" + std::to_string(i), R);
+  for (int i = 0; i < n; i++) {
+    if (kinds[i] == 'C' && srcof[i] >= 0)
+      hostA[i] = hostA[srcof[i]];
     if (kinds[i] == 'C') {
       hostB[i]  = zone->add_host("b" + std::to_string(i), R);
       auto* l   = zone->add_link("l" + std::to_string(i), R)->set_latency(0);
@@ -243,7 +254,16 @@ static int run_case(const std::string& line)
       for (int x : ds)
         d += (d.empty() ? "" : ",") + std::to_string(x);
       double rem = k == 'E' ? static_cast<sg4::Exec*>(a)->get_remaining() : a->get_remaining();
-      emit("D%zu:%c:%c:%a:%s:%s:%s", i, st(a), k, rem, s.c_str(), d.c_str(), a->get_cname());
+      std::string fl;
+      if (k == 'E' && a->is_assigned())
+        fl += "h";
+      if (k == 'C' && static_cast<sg4::Comm*>(a)->get_source() != nullptr)
+        fl += "s";
+      if (k == 'C' && static_cast<sg4::Comm*>(a)->get_destination() != nullptr)
+        fl += "d";
+      if (fl.empty())
+        fl = "-";
+      emit("D%zu:%c:%c:%a:%s:%s:%s:%s", i, st(a), k, rem, s.c_str(), d.c_str(), a->get_cname(), fl.c_str());
     }
     if ((int)dag.size() != n) { // the check's expectation of the DAG size is wrong: nothing more can be scripted
       printf("%s\n", out.c_str());
